@@ -2,7 +2,9 @@
 """round-7 seeding prompt: TWO changes per property, two properties per agent. The agent gets the property texts and its own
 worktree only - nothing from /verif (no list of what earlier rounds tried).  Emphasis: what the change NEEDS in order to manifest.
 usage: tools/seed_prompt7.py <tag> C01 C02"""
-import json, sys
+import json, os, sys
+N0 = int(os.environ.get("S_START", "1"))   # first index: s<N0>, s<N0+1>
+OUT = os.environ.get("S_OUT", "/tmp/seed_out7")
 tag, pids = sys.argv[1], sys.argv[2:]
 props = {json.loads(l)['id']: json.loads(l) for l in open('/verif/properties.jsonl')}
 wt = f"/tmp/wt7_{tag}"
@@ -21,7 +23,7 @@ The library is supposed to satisfy these semantic properties:
 
 {chr(10).join(blocks)}
 
-TASK: for EACH of the {len(pids)} properties above produce TWO independent changes (s1, s2) to the library source, each of which breaks that property (as stated, observable at the OBSERVED AT points through the public API) such that, taken alone:
+TASK: for EACH of the {len(pids)} properties above produce TWO independent changes (s{N0}, s{N0+1}) to the library source, each of which breaks that property (as stated, observable at the OBSERVED AT points through the public API) such that, taken alone:
   (a) the code still imports and the existing test suite still passes completely (run it!),
   (b) the property is now violated,
   (c) the violation needs something SPECIFIC to manifest - NOT something ordinary use would expose at once,
@@ -35,7 +37,7 @@ First read the relevant files carefully and think about what a careful verifier 
   6. a TIME- or CLOCK-dependent defect (only where the mechanism reads a clock): elapsed time exactly on a boundary, a clock that does not advance between two calls, a timeout of 0, a long gap.
 Keep each patch realistic and small (3-40 changed lines), in the tone of an ordinary maintenance commit (no comments announcing the bug). Do not merely delete a guard or flip an operator in the most obvious line - the edit should look plausible to a reviewer.
 
-DELIVERABLE, for each property id P and n in (1, 2), in /tmp/seed_out7/P/s<n>/ :
+DELIVERABLE, for each property id P and n in ({N0}, {N0+1}), in {OUT}/P/s<n>/ :
   - patch.diff   (`git -C {wt} diff` of that change alone, relative to the unmodified worktree HEAD; must apply with `git apply` to a clean checkout)
   - demo.py      (the demonstration; takes no arguments; imports operon_ai from PYTHONPATH; finishes within 60 s)
   - meta.json    {{"property": "P", "kind": <1-6>, "summary": "...what was changed and where...", "clause_broken": "...", "needs_to_manifest": "...the specific sequence/input/fault/interleaving...", "verified": "...exact commands you ran and their results (suite pass count with the patch, demo exit codes with and without the patch; for cooperating edits: demo exit code with each half alone)..."}}
